@@ -597,6 +597,22 @@ fn decide(st: &mut State, me: usize) -> Handoff {
     }
 }
 
+thread_local! {
+    /// set while a thread deliberately executes operations from a destructor during unwinding
+    /// (`Op::InUnwind`): it is scheduled like any other thread
+    static IN_UNWIND_CTX: std::cell::Cell<bool> = const { std::cell::Cell::new(false) };
+}
+
+pub fn set_unwind_ctx(on: bool) {
+    IN_UNWIND_CTX.with(|c| c.set(on));
+}
+
+/// The thread is unwinding (an injected panic, or the teardown of a run): what its destructors
+/// do is not scheduled. Not so inside the deliberate unwinding context of `Op::InUnwind`.
+fn unwinding_unscheduled() -> bool {
+    std::thread::panicking() && !IN_UNWIND_CTX.with(|c| c.get())
+}
+
 fn perform(h: Handoff, me: usize) {
     match h {
         Handoff::Keep => {}
@@ -604,14 +620,14 @@ fn perform(h: Handoff, me: usize) {
             pass_baton(n);
             wait_for_baton(me);
             if SH.abort.load(O::Relaxed) {
-                if !std::thread::panicking() {
+                if !unwinding_unscheduled() {
                     raise_abort();
                 }
             }
         }
         Handoff::Abort => {
             SH.abort.store(true, O::SeqCst);
-            if !std::thread::panicking() {
+            if !unwinding_unscheduled() {
                 raise_abort();
             }
         }
@@ -621,7 +637,7 @@ fn perform(h: Handoff, me: usize) {
 /// A scheduling point of a registered thread that is not an atomic operation.
 pub fn sched_point(what: &'static str) {
     let Some(me) = tid() else { return };
-    if std::thread::panicking() {
+    if unwinding_unscheduled() {
         return;
     }
     if SH.abort.load(O::Relaxed) {
@@ -826,7 +842,7 @@ struct SimHook;
 impl vh::Hook for SimHook {
     fn before(&self, op: &Op) -> Option<usize> {
         let me = tid()?;
-        if std::thread::panicking() {
+        if unwinding_unscheduled() {
             return None;
         }
         if SH.abort.load(O::Relaxed) {
@@ -894,7 +910,7 @@ impl vh::Hook for SimHook {
 
     fn after(&self, op: &Op, old: usize, new: usize) {
         let Some(me) = tid() else { return };
-        if std::thread::panicking() || SH.abort.load(O::Relaxed) {
+        if unwinding_unscheduled() || SH.abort.load(O::Relaxed) {
             return;
         }
         let _p = alloc::pause();
@@ -1030,7 +1046,7 @@ impl vh::Hook for SimHook {
 
     fn fence(&self, ordering: Ordering) {
         let Some(me) = tid() else { return };
-        if std::thread::panicking() || SH.abort.load(O::Relaxed) {
+        if unwinding_unscheduled() || SH.abort.load(O::Relaxed) {
             return;
         }
         let _p = alloc::pause();
